@@ -141,6 +141,8 @@ class Ev:
             if m is None:
                 raise _ModelRaise("TypeError: not iterable")
             return list(m(v))
+        if v is None or isinstance(v, (int, float, bool)) or callable(v):
+            raise _ModelRaise(f"TypeError: {type(v).__name__} is not iterable")
         return list(v)
 
     # ------------------------------------------------------------ expressions
